@@ -260,6 +260,39 @@ def strike_spelling(ctx: Ctx, which: str) -> None:
         torch.set_default_dtype(saved)
 
 
+def broadcasting(ctx: Ctx, which: str) -> None:
+    """Tensor arguments of different ranks - a strike per column as a 1-D tensor included - follow the broadcasting rule of the
+    library's tensors (trailing dimensions aligned): the value equals the one obtained from the same arguments expanded to the
+    common shape beforehand, element by element.  Non-square and square shapes.  which: "price" or "greeks"."""
+    import pfhedge.nn.functional as F
+    DT = torch.float64
+    for fname in sorted(POSITIONAL):
+        order = POSITIONAL[fname]
+        if fname.endswith("_price") != (which == "price"):
+            continue
+        for m, n in ((3, 4), (4, 4), (2, 1)):
+            lm = torch.linspace(-0.375, 0.25, m, dtype=DT).reshape(m, 1)
+            args = {"log_moneyness": lm, "max_log_moneyness": lm.clamp(min=0.0) + 0.125,
+                    "time_to_maturity": torch.linspace(0.25, 1.0, n, dtype=DT), "volatility": torch.tensor([0.25], dtype=DT),
+                    "strike": torch.linspace(0.75, 1.5, n, dtype=DT), "call": True}
+            args = {k: x for k, x in args.items() if k in order}
+            tens = {k: x for k, x in args.items() if isinstance(x, torch.Tensor)}
+            shape = torch.broadcast_shapes(*[x.shape for x in tens.values()])
+            flat = {k: x.expand(shape).reshape(-1).clone() for k, x in tens.items()}
+            try:
+                with torch.enable_grad():
+                    got = getattr(F, fname)(**args).detach()
+                    want = getattr(F, fname)(**dict(args, **flat)).detach().reshape(shape)
+            except Exception as ex:
+                ctx.violation(f"broadcast:{fname}:raises", f"{fname} raised {type(ex).__name__} for arguments of shapes {[tuple(x.shape) for x in tens.values()]}",
+                              {"shapes": {k: list(x.shape) for k, x in tens.items()}, "error": repr(ex)[:200]})
+                continue
+            ctx.count(n=1)
+            if tuple(got.shape) != tuple(shape) or not bool((((got - want).abs() <= 1e-12 * (1 + want.abs())) | (got.isnan() & want.isnan())).all()):
+                ctx.violation(f"broadcast:{fname}", f"{fname}: arguments of different ranks (a 1-D strike among them) do not give the value of the same arguments expanded to the common shape",
+                              {"shapes": {k: list(x.shape) for k, x in tens.items()}, "got_shape": list(got.shape), "got": got.flatten()[:6].tolist(), "expanded": want.flatten()[:6].tolist()})
+
+
 def batch_consistency(ctx: Ctx, grid: Grid, greeks=("price",)) -> None:
     """The value at a point does not depend on what else is in the batch: the whole lattice in one call, one call per spot level
     (every element of such a call has the same moneyness - all below the strike, or all above) and single points agree."""
